@@ -288,7 +288,7 @@ func main() {
 	r.Coverage["rule"] = "cases = (first layer, input) as in C19 (all strings <=2 bytes + constant fills x every first layer; deviation<=1 neighbourhoods of per-type seeds; every seed x every first layer) x decode option sets {Lazy,DSAD,NoCopy,Pool} (all 16 for seedless and unmodified seeds, Lazy x DSAD for deviation-1 in the quick tier) with recovery on; after each decode the full read-only accessor suite runs. Oracle: no panic, error-layer contract observed through a transparent wrapper PacketBuilder. distinct_nontrivial = distinct (first layer, layer-type sequence, error, truncated) outcomes."
 	r.Coverage["first_layers"] = len(sp.Firsts)
 	r.Coverage["per_type_seeds"] = len(sp.TSeeds)
-	r.Assumptions = []string{"bounded time = no case stalls a worker for 120 s; memory = RLIMIT_AS 6 GiB per worker", "the wrapper PacketBuilder is transparent (checked on every case: wrapped and plain decode give the same signature)", "inputs outside the enumerated neighbourhoods are not covered"}
+	r.Assumptions = []string{"bounded time = no case consumes 120 s of CPU time (or blocks for 30 min); memory = RLIMIT_AS 6 GiB per worker", "the wrapper PacketBuilder is transparent (checked on every case: wrapped and plain decode give the same signature)", "inputs outside the enumerated neighbourhoods are not covered"}
 	enum.Main(r, phases)
 	r.Finish()
 }
